@@ -251,6 +251,12 @@ class SocketDriver(drivers.IrcDriver, drivers.ServersMixin):
                 pass
             self.conn.close()
             self.connected = False
+        # Whatever is still buffered belongs to the previous connection: the
+        # rest of a half-sent message must not go to the new one, nor the
+        # beginning of a line be glued to what the new server says first.
+        self.inbuffer = b''
+        self.outbuffer = b''
+        self.eagains = 0
         if reset:
             drivers.log.debug('Resetting %s.', self.irc)
             self.irc.reset()
